@@ -128,6 +128,18 @@ CLAIMED = {
             "Coverage and dispatch conditions of the AST printer: all 25 struct printers destructure Self without `..` and hand every field to a writer; Definition (17), Selection (3) and Value (9) variants are each printed by their own printer / syntax with no wildcard; the `{..}` shorthand is taken only under all five conjuncts (nothing written yet, query, no name, no variables, no directives); output_empty is cleared only by State::write and every definition printer calls State::write on every non-error path; items are separated by the *_or_space forms so that the no-indent configuration writes a space where the indented one writes a line break; and the block-string gate shared with C09.",
             "Equality of the re-parsed AST and byte-identical re-serialization are not decided; the CST->AST conversion builds its targets with struct expressions, whose field completeness the compiler enforces.",
             "typed-HIR use analysis per destructured field, MIR variant-region dispatch tables with symbolic call arguments, must-pass-through summaries (fixpoint over the printer's call graph), who-writes", False),
+    "C14": ("other",
+            "Handler registry for the type system: each of 47 type-system validation rules of spec section 3 (as split into diagnostic kinds: schema roots, unique names, reserved names, extension kinds, non-empty field/member/value sets, output/input types, implements contracts, input-object cycles, directive definitions and applications, default values) has a diagnostic of the matching kind constructed in a function reachable from the schema build / validation entries and, for kind-specific rules, through the validator of that kind of definition, which must itself be reachable from validate_schema.",
+            "Presence of a reachable handler per rule is a necessary condition only; that each handler's condition equals the spec's, i.e. agreement of verdicts with graphql-js over all schema documents, is not decided (not decidable by this family). The branch-level implication `invariant broken => diagnostic` for the invariants of the statement is decided under C15.",
+            "call-graph reachability from entry points through per-kind validators to diagnostic construction sites (aggregates in rustc MIR) against a rule->variant registry", False),
+    "C19": ("other",
+            "Provenance conditions of the executable -> AST lowering that serialization goes through: in the five to_ast lowerings every AST field is drawn from the same-named field of self (the struct expressions make the compiler enforce that a value is given, these rules that it is the right one - alias/name, fragment_name/type_condition are all Names); Selection variants map to the same AST variant of the same node with its location; SelectionSet lowers every selection in order; the document emits anonymous, named, fragments in map order with each node's own location; a FieldSet serializes every selection of its set.",
+            "Equality of the re-parsed and re-validated document with the original is not decided; printing of the lowered AST is decided under C08/C09 and typing of a re-parsed document under C18.",
+            "symbolic (access-path) evaluation of aggregates and straight-line iterator pipelines, variant-region dispatch over rustc MIR", False),
+    "C24": ("other",
+            "The introspection resolvers as extracted tables: each of the seven resolvers reports its type name and handles exactly the fields built_in_types.graphql declares for that type; __Type.kind by ExtendedType variant and wrapper, equal to the __TypeKind enum; the per-kind null/non-null table of fields, interfaces, possibleTypes, enumValues, inputFields, specifiedByURL, ofType; the ofType unwrapping table; root operation types read from the same-named schema fields; every deprecable list filtered by includeDeprecated || no @deprecated with default false, isDeprecated / deprecationReason from @deprecated(reason); and every leaf field reading the same-named part of its definition (18 leaves).",
+            "Equality of introspection response data with the reference implementation on all valid schemas is not decided; the tables are necessary conditions of it. The executor that drives the resolvers is decided under C26.",
+            "string-match decision-table extraction over typed HIR with local-identity keys, compared with the crate's own introspection schema file and the spec's per-kind table; MIR path tables", False),
 }
 
 NOT_APPLICABLE = {
